@@ -317,6 +317,15 @@ def build(spec, salt=0, level=0, seed=0):
         if spec.get("cond") is None:
             # 0.01 * normal initialisation is almost the identity: start from a visibly non-trivial state
             leaf = eqx.tree_at(lambda p: p.params, leaf, leaf.params * 60.0)
+        if spec.get("w0"):
+            # weight vector exactly zero (e.g. a zero-initialised last conditioner layer): a valid, reachable state
+            if spec.get("cond") is None:
+                leaf = eqx.tree_at(lambda p: p.params, leaf, leaf.params.at[: spec["dim"]].set(0.0))
+            else:
+                last = leaf.conditioner.layers[-1]
+                leaf = eqx.tree_at(lambda p: (p.conditioner.layers[-1].weight, p.conditioner.layers[-1].bias), leaf,
+                                   (jnp.zeros_like(last.weight), jnp.zeros_like(last.bias).at[spec["dim"]:].set(0.3)))
+            return leaf  # not perturbed: the point of this state is w == 0 exactly
     elif k in ("Coupling", "MAF"):
         tr = transformer(spec.get("tr", "affine"))
         if k == "Coupling":
